@@ -148,7 +148,7 @@ def validate(ctx, recs, label, chunk):
     return prej, [i for i in irej if i not in prej]
 
 
-APPENDING = ('append', 'appendSub', 'appendLit', 'pushBack', 'rawAppend', 'appendf', 'printf', 'cstr', 'reserveSpace', 'reserveCapacity', 'setAt',
+APPENDING = ('append', 'appendSub', 'appendLit', 'assignLit', 'pushBack', 'rawAppend', 'appendf', 'printf', 'cstr', 'reserveSpace', 'reserveCapacity', 'setAt',
              'toLower', 'toUpper')
 
 
